@@ -106,6 +106,30 @@ func (x *Exec) sliceFieldInv(get func(key string) string, base string) {
 		off, ln, ln, cp, cp, arr, cp, off, ln, cp, off))
 }
 
+// elemClosedInit (typed memory, Go type safety): in the entry state every element of a slice-typed field whose elements
+// are pointers is nil or an allocated object. Emitted once per field, for the initial arrays only.
+func (x *Exec) elemClosedInit(owner *types.Named, fname string, et types.Type) {
+	if !isRefLike(et) || isTypeParam(et) || x.alloc0 == "" || x.ctx.sortOf(et) != "Int" {
+		return
+	}
+	base := fieldKeyOf(owner, fname)
+	if x.elemClosedDone == nil {
+		x.elemClosedDone = map[string]bool{}
+	}
+	if x.elemClosedDone[base] {
+		return
+	}
+	x.elemClosedDone[base] = true
+	for _, c := range []string{"arr", "off", "len", "cap"} {
+		x.registerField(owner, fname, c, "Int", nil)
+	}
+	h := x.heap
+	arr, off, ln := h.fieldInit[base+"#arr"], h.fieldInit[base+"#off"], h.fieldInit[base+"#len"]
+	e := x.elemsArr(&State{fields: map[string]string{}, elems: map[string]string{}}, "Int")
+	el := fmt.Sprintf("(select (select %s (select %s r)) %s)", e, arr, x.eidx(fmt.Sprintf("(select %s r)", off), "i"))
+	x.ctx.Assume(fmt.Sprintf("(forall ((r Int) (i Int)) (! (=> (and (<= 0 i) (< i (select %s r))) (and (<= 0 %s) (<= %s %s))) :pattern (%s)))", ln, el, el, x.alloc0, el))
+}
+
 // closedness: every reference stored in the heap points to an allocated object.
 func (x *Exec) closedness(arr string, sort string, elemT types.Type, alloc string, comp string) {
 	if alloc == "" {
@@ -402,6 +426,7 @@ func (x *Exec) loadFieldT(st *State, owner *types.Named, ref string, fname strin
 		switch u := ft.Underlying().(type) {
 		case *types.Slice:
 			v := Val{K: KSlice, T: ft}
+			x.elemClosedInit(owner, fname, u.Elem())
 			for _, c := range []string{"arr", "off", "len", "cap"} {
 				key := x.registerField(owner, fname, c, "Int", nil)
 				t := sel(x.fieldArr(st, key), ref)
